@@ -7,7 +7,8 @@
 (* independently of Do, a step whose recorded reply is an error, or whose       *)
 (* command the code classifies as read-only, must leave the keyspace unchanged. *)
 EXTENDS RedisKeyspace, Json, IOUtils
-CONSTANT ModelChecks      \* FALSE: only the model-independent rules of C17 are judged
+CONSTANTS ModelChecks,     \* FALSE: only the model-independent rules of C17 are judged
+          TolerateOps      \* ops whose model conformance is a listed finding (deviation configs only)
 Rec == ndJsonDeserialize(IOEnv.TRACE)
 VARIABLES l, run, pre
 RangeQ(q) == {q[i] : i \in DOMAIN q}
@@ -17,6 +18,7 @@ JVal(t, v) == CASE t = "string" -> v
                 [] t = "set" -> RangeQ(v)
                 [] t = "hash" -> [f \in {p[1] : p \in RangeQ(v)} |-> (CHOOSE p \in RangeQ(v) : p[1] = f)[2]]
                 [] t = "zset" -> [m \in {p[1] : p \in RangeQ(v)} |-> (CHOOSE p \in RangeQ(v) : p[1] = m)[2]]
+                [] OTHER -> v
 JState(s) == [k \in {e[1] : e \in RangeQ(s)} |->
                 LET e == CHOOSE x \in RangeQ(s) : x[1] = k IN Entry(e[2], JVal(e[2], e[3]), e[4])]
 
@@ -50,10 +52,15 @@ Judge(ev) ==
           THEN Verdict(ev, "an empty collection came into existence")
      ELSE IF ev.c.op = "OTHER" THEN TRUE
      ELSE IF ev.ro /\ ev.c.op \notin ReadOnlyOps THEN Verdict(ev, "the code classifies as read-only a command that the model says may write")
-     ELSE IF ~ModelChecks THEN TRUE
+     ELSE IF ~ModelChecks \/ ev.c.op \in TolerateOps THEN TRUE
      ELSE LET alts == DoAlts(ev.c, pre, now)
               Match(res) == ReplyOk(res.r, ev.r) /\ StateEq(Live(res.s, now), after)
-              devs == {d \in DevAlts(ev.c, pre, now) : Match(d.res)}
+              (* the fast / pooled / batched GET does not advance the shard's clock: it still sees a key whose *)
+              (* deadline passed since the last generic command on that shard                              *)
+              stale == IF /\ "path" \in DOMAIN ev /\ ev.path # "generic" /\ ev.c.op = "GET"
+                          /\ ev.c.k \in DOMAIN pre /\ pre[ev.c.k].exp # -1 /\ pre[ev.c.k].exp <= now
+                       THEN {[id |-> "fast_path_stale_clock", res |-> Res(DoGet(ev.c, pre).r, Live(pre, now))]} ELSE {}
+              devs == {d \in DevAlts(ev.c, pre, now) \cup stale : Match(d.res)}
           IN
           IF \E res \in alts : Match(res) THEN TRUE
           ELSE IF devs # {} THEN VerdictDev(ev, (CHOOSE d \in devs : TRUE).id)
@@ -65,6 +72,11 @@ TraceNext ==
   \/ /\ l <= Len(Rec)
      /\ LET ev == Rec[l] IN
           IF ev.a = "reset" THEN run' = ev.run /\ pre' = [k \in {} |-> 0]
+          ELSE IF ev.a = "scanall" THEN
+               /\ run' = run /\ pre' = pre
+               /\ (RangeQ(ev.returned) # RangeQ(ev.keys) =>
+                     PrintT(<<"VERDICT", ToJson([run |-> run, l |-> l, v |-> "bad", op |-> "SCAN",
+                                                 what |-> "a full SCAN iteration did not return exactly the keys of the keyspace"])>>))
           ELSE Judge(ev) /\ run' = run /\ pre' = JState(ev.s)
      /\ l' = l + 1
   \/ l = Len(Rec) + 1 /\ PrintT(<<"VALIDATED", Len(Rec)>>) /\ l' = l + 1 /\ UNCHANGED <<run, pre>>
